@@ -12,6 +12,10 @@ for i in "C03-3 C03-4 C06-3 C06-4 C08-3 C08-4 C09-3 C09-4 C14-3 C14-4 C15-3 C15-
 for i in "C01-3 C01-4 C02-3 C02-4 C04-3 C04-4 C05-3 C05-4 C07-3 C07-4 C10-3 C10-4 C11-4 C12-3 C13-3 C13-4 C17-3 C17-4 C18-3 C18-4".split():
     GROUP[i] = "round 2, combined worktree of 20 seeded patches on /repo 22d0831"
 for i in "C11-3 C12-4".split(): GROUP[i] = "round 2, combined worktree of 2 seeded patches on /repo 22d0831"
+import glob as _g
+for _d in _g.glob(os.path.join(V, "seeded", "C*-[56]")):
+    GROUP[os.path.basename(_d)] = "round 3, combined worktree of 37 seeded patches on /repo 22d0831"
+for i in "C02-6 C09-5 C09-6".split(): GROUP[i] = "round 3, combined worktree of 3 seeded patches on /repo 22d0831 (C02-6 and C01-5 together make tests/test_control.py::test_controller_promote hang, each alone passes)"
 for d in sorted(glob.glob(os.path.join(V, "seeded", "C*-*"))):
     i = os.path.basename(d)
     m = json.load(open(os.path.join(d, "meta.json")))
